@@ -471,7 +471,7 @@ theorem C18_roundtrip (e : Env) (sc h p f : Str) (vs : ValidScheme sc) (ph : Pla
     (hf : PyStr f) (hfn : NoSurrogate f) :
     ∃ u, build e { scheme := sc, host := h, path := 47 :: p, fragment := f } = .ok u ∧
       ∀ hr, humanRepr e u = .ok hr → ∃ v, encodeUrl e hr = .ok v ∧ Url.beq v u = true := by
-  refine ⟨_, build_family e sc h p f ph hp hn hdot, ?_⟩
+  refine ⟨_, build_family e sc sc h p f (vs.lowerAny_eq e) ph hp hn hdot, ?_⟩
   intro hr hh
   rw [humanRepr_family e sc h p f ph hidna hp hn hf hfn] at hh
   obtain ⟨hu1, hu2, hm35, hm63⟩ := unsafe_ascii
@@ -661,7 +661,7 @@ theorem C18_roundtrip_userinfo (e : Env) (sc : Str) (user pw : Option Str) (h p 
         (isAscii (Rfc.appendixB Gen.schemeChars hr).authority = false →
           checkNetloc e.o (Rfc.appendixB Gen.schemeChars hr).authority = .ok ()) →
         ∃ v, encodeUrl e hr = .ok v ∧ Url.beq v u = true := by
-  refine ⟨_, build_userinfo e sc user pw h p f ph hp hn hdot, ?_⟩
+  refine ⟨_, build_userinfo e sc sc (vs.lowerAny_eq e) user pw h p f ph hp hn hdot, ?_⟩
   intro hr hh hnf
   rw [humanRepr_userinfo e sc user pw h p f ph hidna hu hune hw hp hn hf hfn] at hh
   obtain ⟨hu1, hu2, hm35, hm63⟩ := unsafe_ascii
